@@ -547,7 +547,7 @@ struct Exec {
     }
 
     Result run() {
-        M.lock_policy = plan.lock_policy;
+        M.lock_policy = plan.lock_policy; M.lock_calls = 0; // (the alternating policy counts calls: per run, not per process)
         g_signal_ignored = plan.signal_ignored;
         if (plan.misuse_handler != g_misuse_handler_installed) { LibScope l; sodium_set_misuse_handler(plan.misuse_handler ? app_misuse_handler : nullptr); g_misuse_handler_installed = plan.misuse_handler; }
         uint64_t raise_ret0 = g_raise_returned;
